@@ -1942,7 +1942,7 @@ mod srvlevel {
     }
 
     /// child process: a server with OS signals enabled; prints its port, exits when the server future resolves
-    pub fn sigchild(timeout: Option<u64>, plain_tokio: bool, abstract_uds: bool, emfile: bool) {
+    pub fn sigchild(timeout: Option<u64>, plain_tokio: bool, abstract_uds: bool, emfile: bool, pre_cmds: bool) {
         if emfile {
             // commands on stdin: `lower` takes every free descriptor away from this process (soft RLIMIT_NOFILE = 0: the next
             // accept fails with a real EMFILE), `restore` gives them back; each is acknowledged on stdout
@@ -1973,6 +1973,17 @@ mod srvlevel {
         let served = Arc::new(AtomicUsize::new(0));
         let fut = async move {
             let (srv, target) = server_on(if abstract_uds { Lst::UdsAbstract } else { Lst::Tcp }, 1, timeout, true, false, served, [0u8; 8]).expect("server");
+            if pre_cmds {
+                // commands through the handle before any signal arrives: the command loop goes on listening to signals
+                let h = srv.handle();
+                tokio::spawn(async move {
+                    tokio::time::sleep(Duration::from_millis(150)).await;
+                    h.pause().await;
+                    h.resume().await;
+                    h.pause().await;
+                    h.resume().await;
+                });
+            }
             match target {
                 Target::Tcp(addr) => println!("{}", addr.port()),
                 Target::UdsAbstract(name) => println!("{}", String::from_utf8_lossy(&name)),
@@ -2034,6 +2045,12 @@ mod srvlevel {
         // makes accept fail with a real EMFILE (the listener backs off for 500 ms); the descriptors come back 100 ms later;
         // `storm=<ms>x<n>`: from then on SIGUSR1 (no-op handler) is delivered to the accept thread every <ms> ms, n times.
         // The connection that hit the shortage is served when the back-off expires — interrupted polls do not postpone it
+        // `pre=1`: the server handles commands (pause, resume, twice) before the signal arrives
+        let pre_cmds = match kv(&ws, "pre") {
+            None => false,
+            Some("1") => true,
+            _ => return (line.to_string(), "bad-op".into(), vec![]),
+        };
         let emfile = match kv(&ws, "emfile") {
             None => false,
             Some("1") => true,
@@ -2051,7 +2068,7 @@ mod srvlevel {
             Err(e) => return (line.to_string(), format!("setup-error {e}"), vec![]),
         };
         let mut child = match std::process::Command::new(exe)
-            .args(["sigchild", &timeout.map_or("default".to_string(), |t| t.to_string()), if plain_tokio { "tokio" } else { "system" }, if abstract_uds { "udsa" } else { "tcp" }, if emfile { "emfile" } else { "-" }])
+            .args(["sigchild", &timeout.map_or("default".to_string(), |t| t.to_string()), if plain_tokio { "tokio" } else { "system" }, if abstract_uds { "udsa" } else { "tcp" }, if emfile { "emfile" } else { "-" }, if pre_cmds { "pre" } else { "-" }])
             .stdin(if emfile { std::process::Stdio::piped() } else { std::process::Stdio::null() })
             .stdout(std::process::Stdio::piped())
             .stderr(std::process::Stdio::null())
@@ -2107,7 +2124,7 @@ mod srvlevel {
             let _ = child.kill();
             return (line.to_string(), "setup-error echo".into(), vec![]);
         }
-        std::thread::sleep(Duration::from_millis(100)); // let the signal handlers be installed
+        std::thread::sleep(Duration::from_millis(if pre_cmds { 700 } else { 100 })); // let the signal handlers be installed (and the commands be handled)
         // the thread of the accept loop in the server process
         let acceptor_tid = || -> Option<i32> {
             for e in std::fs::read_dir(format!("/proc/{}/task", child_pid)).ok()?.flatten() {
@@ -2455,6 +2472,14 @@ mod srvlevel {
             Some("1") => true,
             _ => return (line.to_string(), "bad-op".into(), vec![]),
         };
+        // `burst=N` (kind=pending): N further connections are queued while the service is Pending
+        let burst = match kv(&ws, "burst") {
+            None => 0usize,
+            Some(n) => match super::num(n) {
+                Some(n) if (1..=200).contains(&n) && kv(&ws, "kind") == Some("pending") && kv(&ws, "stop").is_none() => n,
+                _ => return (line.to_string(), "bad-op".into(), vec![]),
+            },
+        };
         let (fail, fail2) = match kv(&ws, "kind") {
             Some("pending") | Some("driver") => (false, false),
             Some("fail") => (true, false),
@@ -2608,6 +2633,27 @@ mod srvlevel {
                     released as u8,
                     after
                 );
+            }
+            if burst > 0 {
+                // `burst` more connections queue up at the worker while its service is Pending; the gate opens: all are served
+                let more: Vec<_> = (0..burst)
+                    .map(|_| {
+                        let a = addr.clone();
+                        tokio::spawn(async move { ask_t(&a, Duration::from_secs(12)).await })
+                    })
+                    .collect();
+                tokio::time::sleep(Duration::from_millis(600)).await;
+                shared.set_gate(G_READY);
+                let mut got = second.await.ok().flatten().is_some() as usize;
+                for t in more {
+                    got += t.await.ok().flatten().is_some() as usize;
+                }
+                let n_calls = shared.calls.lock().unwrap().len();
+                stop_bounded(&handle, srv_done).await;
+                if got < burst + 1 {
+                    fails.push(format!("[C07,C01] {} connections were queued at the worker while its service was Pending; the service became ready, but only {got} of them were served within 12 s ({n_calls} calls in all): a queued connection is served when its service is ready, however many are queued", burst + 1));
+                }
+                return format!("first={} burst={got}/{}", a1.map_or('-', |b| b as char), burst + 1);
             }
             if !fail {
                 // it has to wait; 400 ms later the gate opens
@@ -2881,6 +2927,15 @@ mod srvlevel {
             _ => return (line.to_string(), "bad-op".into(), vec![]),
         };
         if facfail && (!exact || kill != 0 || faults != 1 || with_stop || pair || dropsrv || busystop || hold || sat || pausedrep) {
+            return (line.to_string(), "bad-op".into(), vec![]);
+        }
+        // `victim=last`: the first fault hits the worker in the last handle slot (worker 1) instead of worker 0
+        let victim_last = match kv(&ws, "victim") {
+            None | Some("first") => false,
+            Some("last") => true,
+            _ => return (line.to_string(), "bad-op".into(), vec![]),
+        };
+        if victim_last && (!exact || kill != 0 || faults != 1 || pair || dropsrv || busystop || hold || sat || pausedrep || facfail) {
             return (line.to_string(), "bad-op".into(), vec![]);
         }
         if pausedrep && (workers != 2 || limit != Some(1) || kill != 0 || faults != 1 || with_stop || pair || dropsrv || busystop || hold || sat) {
@@ -3290,7 +3345,12 @@ mod srvlevel {
             }
             std::mem::forget(drop_srv.take());
             // kill w0 (its turn): the killing connection gets no answer
-            if kill == 0 {
+            if victim_last {
+                // the worker in the LAST handle slot (instance 2) dies: the connection before goes to worker 0, the killing one
+                // to worker 1 — the cursor is on the last slot when the dead worker is discovered
+                shared.kill_target.store(2, Ordering::SeqCst);
+                let _ = ask(addr, w).await;
+            } else if kill == 0 {
                 shared.kill_target.store(KILL_ANY, Ordering::SeqCst);
             } else {
                 // the worker whose turn it is: instance 1 (worker 0) — the connection wakes it, it asks its service first
@@ -4069,7 +4129,9 @@ mod gen {
         let mut rng = Rng::new(a.seed ^ 0x7707);
         let prop = a.prop.as_str();
         writeln!(w, "case kernels n=1 timeout=0").unwrap();
-        for v in 0..=5 {
+        // (`Counter::total()` of a raw value 0 computes 0 - 1: a panic with overflow checks, a wrap without — only the former is
+        // what the model says; a build without debug assertions starts at 1)
+        for v in (if cfg!(debug_assertions) { 0 } else { 1 })..=5 {
             writeln!(w, "k-total {v}").unwrap();
         }
         if prop == "C06" {
@@ -4125,6 +4187,8 @@ mod gen {
             writeln!(w, "fault fz limit=1 pausedrep=1").unwrap();
             // a restart fails (the factory cannot make the service): logged; the next fault, of the other worker, is still replaced
             writeln!(w, "fault ff facfail=1").unwrap();
+            writeln!(w, "fault fv victim=last stop=1").unwrap();
+            writeln!(w, "fault fv2 victim=last").unwrap();
             // the same under an actix System (workers on Arbiters): a worker that dies saturated takes its arbiter — and the
             // connections on it — with it; that is how it is found
             writeln!(w, "fault fhs workers=1 limit=1 kill=ready hold=1 sys=1").unwrap();
@@ -4248,6 +4312,9 @@ mod gen {
             writeln!(w, "gate g3 kind=fail listeners=257 at=256").unwrap();
             // a service made ready by a local task that its factory spawned (plain Tokio runtime, and under an actix System)
             writeln!(w, "gate g5 kind=driver").unwrap();
+            // many connections queued at one worker while its service is Pending: all served when it is ready
+            writeln!(w, "gate gq kind=pending burst=60").unwrap();
+            writeln!(w, "gate gq2 kind=pending burst=150 lst=uds").unwrap();
             writeln!(w, "gate g6 kind=driver sys=1").unwrap();
             // a unix listener: the connection reaches the service intact (it is answered) after it waited for readiness
             writeln!(w, "gate g7 kind=pending lst=uds").unwrap();
@@ -4284,6 +4351,8 @@ mod gen {
             };
             // a worker faults and is replaced; a connection is in progress on the REPLACEMENT; graceful stop must wait for it
             writeln!(w, "fault fs0 stop=1").unwrap();
+            // … the worker in the LAST handle slot, discovered with the cursor on it; the accept thread survives, the stop completes
+            writeln!(w, "fault fv0 victim=last stop=1").unwrap();
             // a worker is dead and nobody has noticed; a connection is in progress on the OTHER worker; graceful stop waits for it
             writeln!(w, "fault fb0 busystop=1").unwrap();
             if thorough {
@@ -4341,6 +4410,9 @@ mod gen {
             // terminating one stops it cleanly
             writeln!(w, "sig e0 sig=term timeout=1 hold=300 to=acceptor usr1=1").unwrap();
             writeln!(w, "sig e1 sig=int timeout=5 hold=n to=acceptor rt=tokio").unwrap();
+            // commands before the signal: the signal still stops the server
+            writeln!(w, "sig c0 sig=term timeout=1 hold=300 pre=1").unwrap();
+            writeln!(w, "sig c1 sig=quit timeout=5 hold=n pre=1 rt=tokio").unwrap();
             // one more stop() after the shutdown is over (the Server future has resolved): resolves at once
             srv(&mut *w, "workers=1 timeout=1 mode=g holds=300 late=f");
             srv(&mut *w, "workers=2 timeout=5 mode=f holds=n late=g second=g");
@@ -4422,6 +4494,7 @@ fn main() {
             argv.get(3).map(|s| s.as_str()) == Some("tokio"),
             argv.get(4).map(|s| s.as_str()) == Some("udsa"),
             argv.get(5).map(|s| s.as_str()) == Some("emfile"),
+            argv.get(6).map(|s| s.as_str()) == Some("pre"),
         );
         return;
     }
